@@ -185,6 +185,23 @@ def return_values(body):
     return out
 
 
+def return_values_r(body):
+    """return_values plus one synthetic statement for every `?` that leaves the function: the call
+    `_0 = FromResidual::from_residual(r)` always yields Err (in a function returning Result) or None (Option)"""
+    out = list(return_values(body))
+    rty = body.local_ty(0)
+    for c in body.calls:
+        if c.dst["l"] == 0 and not c.dst["p"] and c.matches(r"from_residual$") and not c.local and c.bb in body.reachable_blocks():
+            if rty.startswith(("std::result::Result<", "core::result::Result<")):
+                rv = {"k": "agg", "agg": "adt", "adt": "std::result::Result", "variant": "Err", "variant_idx": 1, "ops": list(c.args), "fields": [], "synthetic": True}
+            elif rty.startswith(("std::option::Option<", "core::option::Option<")):
+                rv = {"k": "agg", "agg": "adt", "adt": "std::option::Option", "variant": "None", "variant_idx": 0, "ops": [], "fields": [], "synthetic": True}
+            else:
+                continue
+            out.append((c.bb, {"k": "assign", "dst": {"l": 0, "p": []}, "rv": rv, "line": c.line}))
+    return out
+
+
 def _expand_ret(body, bb, st, depth):
     rv = st["rv"]
     if rv["k"] == "use" and depth < 4:
@@ -470,3 +487,60 @@ def _base_local(body, op, depth=0):
     if d and d[1] == "assign" and d[2]["rv"]["k"] == "use":
         return _base_local(body, d[2]["rv"]["op"], depth + 1)
     return p["l"]
+
+
+def value_sites(body, op, steps=(), depth=0, seen=None):
+    """The statements that can produce the value read by operand `op` (projected by `steps`): walks copies,
+    references, struct / tuple / enum aggregates (selecting the operand the projection names) and partial
+    writes `x.f = v`. Returns a list of (bb, stmt-or-Call); a stmt leaf is an assignment whose right-hand
+    side is an aggregate / constant / computation, a Call leaf is a call whose result is the value."""
+    from .prov import Prov
+    seen = seen if seen is not None else set()
+    out = []
+    if op_const(op) is not None:
+        return out
+    p = op_place(op)
+    if p is None or depth > 10:
+        return out
+    ps, complete = Prov._steps(p)
+    if not complete:
+        return out
+    steps = tuple(ps) + tuple(steps)
+    key = (p["l"], steps)
+    if key in seen:
+        return out
+    seen.add(key)
+    for (bb, kind, d) in body.defs.get(p["l"], []):
+        if kind == "call":
+            out.append((bb, d))
+            continue
+        dst, rv = d["dst"], d["rv"]
+        dsteps, dcomplete = Prov._steps(dst)
+        rest = steps
+        if [e for e in dst["p"] if e != "*"]:
+            n = min(len(dsteps), len(steps))
+            if not dcomplete or dsteps[:n] != steps[:n] or len(dsteps) > len(steps):
+                if dcomplete and dsteps[:n] == steps[:n] and len(dsteps) > len(steps):
+                    out.append((bb, d))   # a deeper field of the value is written
+                continue
+            rest = steps[len(dsteps):]
+        k = rv["k"]
+        if k in ("use", "cast"):
+            if op_const(rv["op"]) is not None:
+                out.append((bb, d))
+            else:
+                out.extend(value_sites(body, rv["op"], rest, depth + 1, seen))
+        elif k in ("ref", "rawptr"):
+            out.extend(value_sites(body, {"copy": rv["place"]}, rest, depth + 1, seen))
+        elif k == "agg" and rest and rv.get("agg") in ("adt", "tuple"):
+            sel = rest[0]
+            if sel[0] == "variant":
+                if rv.get("variant_idx") == sel[1] and sel[2] < len(rv["ops"]):
+                    o = rv["ops"][sel[2]]
+                    out.extend([(bb, d)] if op_const(o) is not None else value_sites(body, o, rest[1:], depth + 1, seen))
+            elif sel[1] < len(rv["ops"]):
+                o = rv["ops"][sel[1]]
+                out.extend([(bb, d)] if op_const(o) is not None else value_sites(body, o, rest[1:], depth + 1, seen))
+        else:
+            out.append((bb, d))
+    return out
